@@ -1916,7 +1916,7 @@ class tensor:
                 )
 
             # extract scalar if needed
-            if len(y) == 1:
+            if dnew == 0:
                 return cast(float, y.item())
 
             return y
